@@ -1,2 +1,43 @@
-(* C07 — property theorems (under construction; see Batch/*_proofs.v). *)
-From QV Require Import Batch.Monitor.
+(* C07 — the wrapped primitive is never used concurrently.
+   Batching wrappers: Batch/Monitor.v, `in_use th` = between f-begin (f(...) called) and f-end (.result() returned or
+   raised).  Plain mutex wrappers: Batch/Mutex.v, `m_using th` = inside the wrapped primitive's run().
+   Property theorems only. *)
+From QV Require Import Common.Base Batch.Monitor Batch.Inv Batch.Route Batch.Route_proofs Batch.Mutex Batch.Mutex_proofs Batch.Live Batch.Live_proofs.
+
+(* In every reachable state at most one thread is using the primitive, and it owns the variable lock and the entry lock. *)
+Theorem C07_batching_exclusive : forall v st, failure_path_repaired v = true -> reachable v st ->
+  (forall t1 t2 th1 th2, nth_error (threads st) t1 = Some th1 -> nth_error (threads st) t2 = Some th2 ->
+     in_use th1 = true -> in_use th2 = true -> t1 = t2)
+  /\ (forall t th, nth_error (threads st) t = Some th -> in_use th = true ->
+        lkV (sh st) = Some t /\ lkE (sh st) = Some t).
+Proof. exact batching_exclusive. Qed.
+Print Assumptions C07_batching_exclusive.
+
+Theorem C07_mutex_exclusive : forall st, mreachable st ->
+  (forall t1 t2 th1 th2, nth_error (mths st) t1 = Some th1 -> nth_error (mths st) t2 = Some th2 ->
+     m_using th1 = true -> m_using th2 = true -> t1 = t2)
+  /\ (forall t th, nth_error (mths st) t = Some th -> m_using th = true -> mlk st = Some t).
+Proof. exact mutex_exclusive. Qed.
+Print Assumptions C07_mutex_exclusive.
+
+(* the plain mutex wrappers never deadlock either *)
+Theorem C07_mutex_no_stuck : forall st, mreachable st ->
+  (exists t th, nth_error (mths st) t = Some th /\ m_pc th <> MDone) -> exists t st', mstep st t = Some st'.
+Proof. exact mutex_no_stuck. Qed.
+Print Assumptions C07_mutex_no_stuck.
+
+(* What the solver's constructor puts in front of the raw primitive (the constructor itself is compared with `install`
+   by the harness): with mutual exclusion requested the evaluators never see an unguarded primitive. *)
+Theorem C07_installed :
+  install true ThreadPool Raw = TranspilingW (BatchingMutexW Raw)
+  /\ install true DaskClient Raw = TranspilingW (MutexW Raw)
+  /\ (forall ex, guarded (install true ex Raw) = true)
+  /\ (forall ex, install false ex Raw = TranspilingW Raw).
+Proof. exact installed_wrappers. Qed.
+Print Assumptions C07_installed.
+
+(* a reachable state in which the primitive is in use exists: the theorem is not about an empty set *)
+Example C07_nonvacuous :
+  exists st, reachable (head true) st /\ exists t th, nth_error (threads st) t = Some th /\ in_use th = true.
+Proof. exact demo_in_use. Qed.
+Print Assumptions C07_nonvacuous.
